@@ -42,12 +42,26 @@ structure PrimsOK (P : Prims) (F : RealFns K) : Prop where
   cos : ∀ I (x : K), encl I x → encl (P.cos I) (F.cos x)
   pi : encl P.pi F.pi
 
-/-- value of a nat / int subterm (`of_nat t`, `of_int t`, nat exponents) in the typed semantics -/
-def natVal (e : AExpr) : Nat :=
-  match den (fun _ => .b false) e with
-  | some (.n k) => k
+/-- what is needed of the abstract real functions to relate the two ways a real power is computed
+(`real_eval`: integer powers; `real_interval_eval`: `exp (y * log x)` for a positive base) -/
+structure FnsSpec (F : RealFns K) : Prop where
+  exp_zero : F.exp 0 = 1
+  log_one : F.log 1 = 0
+  rpow_int : ∀ (x : K) (p : Int), 0 < x → F.exp ((p : K) * F.log x) = if p ≥ 0 then x ^ p.toNat else (x ^ (-p).toNat)⁻¹
+
+/-- value of a nat subterm (`of_nat t`, nat exponents): compositional, truncated subtraction; a
+subterm that is not built from numerals, `Suc`, `+`, `*`, `-` counts as 0 -/
+def natVal : AExpr → Nat
+  | .zero _ => 0
+  | .one _ => 1
+  | .ofNat _ a => if isBinary a then destBinary a else 0
+  | .suc a => natVal a + 1
+  | .plus _ a b => natVal a + natVal b
+  | .minus _ a b => natVal a - natVal b
+  | .times _ a b => natVal a * natVal b
   | _ => 0
 
+/-- value of an int subterm (`of_int t`) in the typed semantics -/
 def intVal (e : AExpr) : Int :=
   match den (fun _ => .b false) e with
   | some (.i k) => k
@@ -59,11 +73,21 @@ def numVal (e : AExpr) : Rat :=
   | .ok v => v.toRat
   | .error _ => 0
 
+/-- `x ^ p` for an integer `p` (`0 ^ p = 0` for `p < 0`, as `ratIntPow`) -/
+def zpowK (x : K) (p : Int) : K := if p ≥ 0 then x ^ p.toNat else (x ^ (-p).toNat)⁻¹
+
+/-- the exponent of a real power when it is (syntactically evaluable to) an integer -/
+def intExp (b : AExpr) : Option Int :=
+  match realRec b with
+  | .ok v => if v.toRat.den = 1 then some v.toRat.num else none
+  | .error _ => none
+
+open Classical in
 /-- The value of a variable-free real term built from numerals, `of_nat`/`of_int` of evaluable
 terms, `+ - * /`, inverse, powers, `pi` and the named functions, with the library's definitions
-(`tan = sin / cos`, `cot = cos / sin`, `sec = 1 / cos`, `csc = 1 / sin`, `x ^ y = exp (y * log x)` for
-`0 < x`).  Other terms get 0; the theorem below only speaks about terms the evaluator accepts. -/
-def tval (F : RealFns K) : AExpr → K
+(`tan = sin / cos`, `cot = cos / sin`, `sec = 1 / cos`, `csc = 1 / sin`, `x ^ y = exp (y * log x)` for `0 < x`; for `x ≤ 0`: 1 if `y = 0`, 0 if `x = 0`, the integer power for an
+integer `y`).  Other terms get 0; the theorem below only speaks about terms the evaluator accepts. -/
+noncomputable def tval (F : RealFns K) : AExpr → K
   | .ofNat T a => if isNumber (.ofNat T a) then ((numVal (.ofNat T a) : Rat) : K) else (((natVal a : Nat) : Rat) : K)
   | .ofInt a => (((intVal a : Int) : Rat) : K)
   | .plus _ a b => tval F a + tval F b
@@ -73,7 +97,12 @@ def tval (F : RealFns K) : AExpr → K
   | .divide a b => if isNumber (.divide a b) then ((numVal (.divide a b) : Rat) : K) else tval F a / tval F b
   | .inverse a => ((1 : Rat) : K) / tval F a
   | .power _ a b =>
-    if typeOf b == .nat then tval F a ^ natVal b else F.exp (tval F b * F.log (tval F a))
+    if typeOf b == .nat then tval F a ^ natVal b
+    else if 0 < tval F a then F.exp (tval F b * F.log (tval F a))   -- x ^ y = exp (y * log x) for 0 < x
+    else if tval F b = 0 then 1                                      -- x ^ 0 = 1
+    else if tval F a = 0 then 0                                      -- 0 ^ y = 0 for y ≠ 0
+    else if h : ∃ p : Int, tval F b = (p : K) then zpowK (tval F a) (Classical.choose h)   -- negative base, integer exponent
+    else 0
   | .pi => F.pi
   | .fn f a =>
     match f with
@@ -98,9 +127,48 @@ theorem nonzeroIv_ok {y y' : Iv} (h : nonzeroIv y = .ok y') : y = y' ∧ mayBeZe
     cases h
     exact ⟨rfl, by simpa using hz⟩
 
-theorem natVal_of_natEval (a : AExpr) (n : Nat) (h : natEval a = .ok n) (hw : wt a = true)
-    (ht : typeOf a = .nat) : natVal a = n := by
-  simp [natVal, natEval_sound' (fun _ => .b false) a n h ht hw]
+theorem natVal_of_natEval' (a : AExpr) : ∀ n, natEval a = .ok n → natVal a = n := by
+  induction a with
+  | zero T => intro n h; simp [natEval] at h; simp [natVal, h]
+  | one T => intro n h; simp [natEval] at h; simp [natVal, h]
+  | ofNat T a _ =>
+    intro n h
+    simp only [natEval] at h
+    split at h
+    · rename_i hb; cases h; simp [natVal, hb]
+    · cases h
+  | suc a ih =>
+    intro n h
+    simp only [natEval] at h
+    obtain ⟨m, hm, h⟩ := bind_ok h
+    cases h
+    simp [natVal, ih m hm]
+  | plus T a b iha ihb =>
+    intro n h
+    simp only [natEval] at h
+    obtain ⟨x, hx, h⟩ := bind_ok h
+    obtain ⟨y, hy, h⟩ := bind_ok h
+    cases h
+    simp [natVal, iha x hx, ihb y hy]
+  | minus T a b iha ihb =>
+    intro n h
+    simp only [natEval] at h
+    obtain ⟨x, hx, h⟩ := bind_ok h
+    obtain ⟨y, hy, h⟩ := bind_ok h
+    cases h
+    simp only [natVal, iha x hx, ihb y hy]
+    split <;> omega
+  | times T a b iha ihb =>
+    intro n h
+    simp only [natEval] at h
+    obtain ⟨x, hx, h⟩ := bind_ok h
+    obtain ⟨y, hy, h⟩ := bind_ok h
+    cases h
+    simp [natVal, iha x hx, ihb y hy]
+  | _ => intro n h; simp [natEval] at h
+
+theorem natVal_of_natEval (a : AExpr) (n : Nat) (h : natEval a = .ok n) (_hw : wt a = true)
+    (_ht : typeOf a = .nat) : natVal a = n := natVal_of_natEval' a n h
 
 theorem intVal_of_intEval (a : AExpr) (v : Num) (h : intEval a = .ok v) (hw : wt a = true)
     (ht : typeOf a = .int) : v.toRat = ((intVal a : Int) : Rat) := by
